@@ -2,6 +2,7 @@ package props
 
 import (
 	"fmt"
+	"math"
 
 	"verifharness/core"
 	"verifharness/mon"
@@ -54,7 +55,7 @@ func (p c13) Run(c *core.Ctx) {
 	var runners []int
 	for i := 0; i < nr; i++ {
 		k := g.AddRandomNode(world.TypesRunner, 0.25)
-		sc.Nodes[k].Ord = []int{0, 0, 1, 1, -1, 3, 3, -5, 7}[c.Rng.Intn(9)]
+		sc.Nodes[k].Ord = []int{0, 0, 1, 1, -1, 3, 3, -5, 7, math.MaxInt, math.MinInt, math.MaxInt - 1, -1 << 62}[c.Rng.Intn(13)]
 		runners = append(runners, k)
 		// dependencies of the runner
 		for x := 0; x < c.Rng.Intn(3); x++ {
